@@ -11,9 +11,10 @@ used in the signature.
 """
 import os
 import re
+import threading
 
 from vlib import tools
-from vlib.common import pmap, rng, write
+from vlib.common import log, pmap, rng, write
 from vlib.elf import Elf, ElfError, SHT_SYMTAB, SHT_STRTAB, SHN_UNDEF
 
 LEVEL = "exploration"
@@ -50,7 +51,7 @@ def tokenize(p):
                     k += 1
                 k += 1
             if k >= len(p):
-                out.append(("lit", "[", "["))       # unterminated bracket: literal '['
+                out.append(("ubr", "[", "["))       # unterminated bracket: literal '['
                 i += 1
                 continue
             body = p[j:k]
@@ -81,7 +82,7 @@ def tokenize(p):
 
 def _one(tok, ch):
     k = tok[0]
-    if k in ("lit", "esc"):
+    if k in ("lit", "esc", "ubr"):
         return tok[2] == ch
     if k == "q":
         return True
@@ -128,6 +129,10 @@ def pclass(pat):
     if len(pat.encode()) < 4:
         return "short-prefix<4"
     toks = tokenize(pat)
+    if "**" in pat and any(toks[i][0] == toks[i + 1][0] == "star" for i in range(len(toks) - 1)):
+        return "double-star"
+    if any(t[0] == "ubr" for t in toks):
+        return "unterminated-bracket"
     off = 0
     kinds = []
     for k, text, _ in toks:
@@ -189,7 +194,7 @@ def mutate(r, n, kind):
     if kind == "exact":
         return n
     if kind == "prefix":
-        k = r.choice([1, 2, 3, 3, 4, 4, 5, 6, L]) if L > 1 else 1
+        k = r.choice([2, 3, 4, 4, 5, 6, L, L]) if L > 1 else 1
         return n[:min(k, L)] + "*"
     if kind == "leading":
         k = r.randint(0, max(0, L - 1))
@@ -336,7 +341,14 @@ def placement(path):
     return out
 
 
-def build_and_link(ctx, case, tag):
+ENV = {"RUST_BACKTRACE": "0"}
+_lock = threading.Lock()
+ALONE = {}      # (pattern) -> effect of wild linking a script with only that pattern ('panic'/'rejected'/None)
+SIGCACHE = {}   # raw difference key -> signature found by the full examination (None: agreed in isolation)
+RECORDED = {}   # signature -> times recorded
+
+
+def build_and_link(ctx, case, tag, only=None):
     """Returns (dir, ld Result, wild Result)."""
     d = ctx.scratch.dir("c", tag)
     for i, f in enumerate(case["files"]):
@@ -351,8 +363,11 @@ def build_and_link(ctx, case, tag):
     write(os.path.join(d, "cmd.txt"), "cd <this dir>; wild " + " ".join(args) + " -o w.out ; ld " + " ".join(args) + " -o l.out\n")
     tools.fresh(os.path.join(d, "l.out"))
     tools.fresh(os.path.join(d, "w.out"))
-    ld = tools.link("ld", args + ["-o", "l.out"], cwd=d, timeout=60)
-    w = tools.link("wild", args + ["-o", "w.out"], cwd=d, timeout=60)
+    ld = w = None
+    if only in (None, "ld"):
+        ld = tools.link("ld", args + ["-o", "l.out"], cwd=d, timeout=60)
+    if only in (None, "wild"):
+        w = tools.link("wild", args + ["-o", "w.out"], cwd=d, timeout=60, extra_env=ENV)
     return d, ld, w
 
 
@@ -363,12 +378,25 @@ def effect_of(res):
     return "rejected"
 
 
-def isolate(ctx, sec_name, fname, filepat, pat, keep, tag):
-    """One section, one description. Returns dict(ld=sec|None|'FAIL', wild=sec|None|'panic'|'rejected', dir)."""
-    case = dict(files=[fname], secs=[dict(id=0, file=fname, name=sec_name, live=not keep)],
-                outs=[[dict(keep=keep, filepat=filepat, pats=[pat])]])
+def file_model(fp, fname):
+    if fp == "*":
+        return True
+    if any(c in fp for c in "*?["):
+        return model_match(fp, fname)
+    return fp == fname
+
+
+def isolate(ctx, sec_name, fname, filepat, pat, keep, tag, extra_first=None):
+    """One section, one description (optionally preceded by another). Returns dict(ld=sec|None|'FAIL',
+    wild=sec|None|'panic'|'rejected'|'TIMEOUT', model=expected section, dir)."""
+    descs = [dict(keep=keep, filepat=filepat, pats=[pat])]
+    if extra_first is not None:
+        descs.insert(0, extra_first)
+    case = dict(files=[fname], secs=[dict(id=0, file=fname, name=sec_name, live=not keep)], outs=[descs])
     d, ld, w = build_and_link(ctx, case, tag)
     out = dict(dir=d, ld="FAIL", wild=None, werr=w.errtext())
+    hit = any(file_model(dd["filepat"], fname) and any(model_match(p, sec_name) for p in dd["pats"]) for dd in descs)
+    out["model"] = ".out0" if hit else (None if keep else sec_name)
     if ld.ok and not ld.timed_out:
         try:
             out["ld"] = placement(os.path.join(d, "l.out")).get("m_0")
@@ -384,9 +412,9 @@ def isolate(ctx, sec_name, fname, filepat, pat, keep, tag):
 
 
 def classify_diff(iso, keep):
-    """None when ld and wild agree in isolation, else the effect string."""
+    """None when ld and wild agree in isolation (or the case cannot be judged), else the effect."""
     l, w = iso["ld"], iso["wild"]
-    if l == "FAIL" or w == "TIMEOUT":
+    if l == "FAIL" or w == "TIMEOUT" or l != iso["model"]:
         return None
     if w in ("panic", "rejected"):
         return w
@@ -412,7 +440,7 @@ def minimise(ctx, sec_name, fname, filepat, pat, keep, effect, tag):
     n = 0
     cur = list(toks)
     for i in range(len(toks)):
-        if cur[i][0] == "lit":
+        if cur[i][0] in ("lit", "ubr"):
             continue
         lit = spans[i]
         if any(c in "*?[]\\" for c in lit):
@@ -428,116 +456,183 @@ def minimise(ctx, sec_name, fname, filepat, pat, keep, effect, tag):
     return "".join(t[1] for t in cur)
 
 
-def report(ctx, case_id, sec, desc, pat, tag, seen, which="section"):
-    """Isolates (sec, desc, pat); records a violation and returns True when wild differs from ld
-    in isolation."""
-    iso = isolate(ctx, sec["name"], sec["file"], desc["filepat"], pat, desc["keep"] and not sec["live"], tag)
+def record(ctx, sig, desc, case_id, files, info):
+    with _lock:
+        RECORDED[sig] = RECORDED.get(sig, 0) + 1
+        first = RECORDED[sig] <= 2
+    ctx.note("difference:" + sig)
+    if first:
+        log(f"[C15] {sig} :: {desc[:300]}")
+        ctx.violation(sig, desc, case=case_id, files=files, info=info)
+
+
+def examine(ctx, case_id, sec, desc, pat, tag):
+    """Isolates (section, description, pattern). Returns the signature of the difference between
+    GNU ld and wild in isolation (recording it), or None when they agree there."""
     keep = desc["keep"] and not sec["live"]
+    iso = isolate(ctx, sec["name"], sec["file"], desc["filepat"], pat, keep, tag)
     eff = classify_diff(iso, keep)
     if eff is None:
-        return False
-    fileeff = None
+        if iso["ld"] not in ("FAIL", iso["model"]):
+            ctx.note("isolated-model-disagrees-with-ld:" + pclass(pat))
+        return None
     if desc["filepat"] != "*":
         # is the file pattern or the section pattern responsible?
         iso2 = isolate(ctx, sec["name"], sec["file"], "*", pat, keep, tag + "-anyfile")
-        if classify_diff(iso2, keep) is None:
-            fileeff = eff
-    if fileeff is not None:
-        fp = desc["filepat"]
-        fcls = ("exact" if not any(c in fp for c in "*?[") else "wildcard") + \
-               (":input-in-subdirectory" if "/" in sec["file"] else "") + (":pattern-has-directory" if "/" in fp else "")
-        sig = f"file-pattern-class={fcls}:{fileeff}"
-        if sig in seen:
-            return True
-        seen.add(sig)
-        ctx.violation(sig, f"file pattern `{fp}` against input `{sec['file']}` (section {sec['name']!r}): GNU ld places the "
-                      f"section in {iso['ld']}, wild in {iso['wild']}", case=case_id, files={"iso": iso["dir"]},
-                      info={"file_pattern": fp, "file": sec["file"], "section": sec["name"], "pattern": pat})
-        return True
+        if classify_diff(iso2, keep) is None and iso2["ld"] == iso2["model"]:
+            fp = desc["filepat"]
+            fcls = ("exact" if not any(c in fp for c in "*?[") else "wildcard") + \
+                   (":input-in-subdirectory" if "/" in sec["file"] else "") + (":pattern-has-directory" if "/" in fp else "")
+            sig = f"file-pattern-class={fcls}:{eff}"
+            record(ctx, sig, f"file pattern `{fp}` against input `{sec['file']}` (section {sec['name']!r}, pattern `{pat}`): "
+                   f"GNU ld places the section in {iso['ld']}, wild in {iso['wild']}", case_id, {"iso": iso["dir"]},
+                   {"file_pattern": fp, "file": sec["file"], "section": sec["name"], "pattern": pat})
+            return sig
     small = minimise(ctx, sec["name"], sec["file"], desc["filepat"], pat, keep, eff, tag) if eff in (
         "never-matches", "keep-discarded", "panic", "rejected") else pat
     cls = pclass(small)
     sig = f"pattern-class={cls}:{eff}"
-    if sig in seen:
-        return True
-    seen.add(sig)
     iso = isolate(ctx, sec["name"], sec["file"], desc["filepat"], small, keep, tag + "-final")
-    ctx.violation(sig, f"pattern `{small}` (from `{pat}`) against section {sec['name']!r}: GNU ld -> {iso['ld']}, "
-                  f"wild -> {iso['wild']} {iso['werr'].strip()[:160]}", case=case_id, files={"iso": iso["dir"]},
-                  info={"pattern": pat, "minimal": small, "section": sec["name"], "file": sec["file"],
-                        "keep": keep, "class": cls})
-    return True
+    record(ctx, sig, f"pattern `{small}` (reduced from `{pat}`) against section {sec['name']!r}"
+           f"{' under KEEP, unreferenced' if keep else ''}: GNU ld -> {iso['ld']}, wild -> {iso['wild']} "
+           f"{iso['werr'].strip()[:160]}", case_id, {"iso": iso["dir"]},
+           {"pattern": pat, "minimal": small, "section": sec["name"], "file": sec["file"], "keep": keep, "class": cls})
+    return sig
+
+
+def examine_cached(ctx, case_id, sec, desc, pat, tag, guess):
+    key = (pclass(pat), guess, desc["filepat"] == "*" or ("/" in desc["filepat"], "/" in sec["file"],
+                                                          any(c in desc["filepat"] for c in "*?[")),
+           desc["keep"] and not sec["live"])
+    with _lock:
+        if key in SIGCACHE and SIGCACHE[key][1] >= 2 and SIGCACHE[key][0] is not None:
+            sig = SIGCACHE[key][0]
+            ctx.note("difference:" + sig)
+            ctx.note("difference-classified-from-cache")
+            return sig
+    sig = examine(ctx, case_id, sec, desc, pat, tag)
+    with _lock:
+        old = SIGCACHE.get(key)
+        if sig is not None and (old is None or old[0] == sig):
+            SIGCACHE[key] = (sig, (old[1] if old else 0) + 1)
+        else:
+            SIGCACHE[key] = (None, 0)
+    return sig
 
 
 def model_place(case, sec):
-    """(output index, desc) of the first description the model says matches, else (None, None).
+    """(output index, desc, pattern) of the first description the model says matches, else Nones.
     File patterns are matched against the command-line spelling, as GNU ld does."""
     for oi, descs in enumerate(case["outs"]):
         for d in descs:
-            fp = d["filepat"]
-            if fp != "*":
-                if any(c in fp for c in "*?["):
-                    if not model_match(fp, sec["file"]):
-                        continue
-                elif fp != sec["file"]:
-                    continue
+            if not file_model(d["filepat"], sec["file"]):
+                continue
             for p in d["pats"]:
                 if model_match(p, sec["name"]):
                     return oi, d, p
     return None, None, None
 
 
-def one_case(ctx, i, case=None):
+def model_keep_desc(case, sec):
+    for descs in case["outs"]:
+        for d in descs:
+            if d["keep"] and file_model(d["filepat"], sec["file"]):
+                for p in d["pats"]:
+                    if model_match(p, sec["name"]):
+                        return d, p
+    return None, None
+
+
+def alone_effect(ctx, pat, tag):
+    """Does wild fail on a script that contains only this pattern?"""
+    with _lock:
+        if pat in ALONE:
+            return ALONE[pat]
+    case = dict(files=["a1.o"], secs=[dict(id=0, file="a1.o", name=".dataXYZ", live=True)],
+                outs=[[dict(keep=False, filepat="*", pats=[pat])]])
+    d, _, w = build_and_link(ctx, case, tag, only="wild")
+    eff = None if (w.ok or w.timed_out) else effect_of(w)
+    with _lock:
+        ALONE[pat] = eff
+    return eff
+
+
+def strip_patterns(case, badpats):
+    outs = []
+    for descs in case["outs"]:
+        nd = []
+        for d in descs:
+            ps = [p for p in d["pats"] if p not in badpats]
+            if ps:
+                nd.append(dict(d, pats=ps))
+        if nd:
+            outs.append(nd)
+    return dict(case, outs=outs)
+
+
+def one_case(ctx, i):
     r = rng("C15", ctx.seed, i)
-    case = case or build_case(r, ctx.quick)
-    d, ld, w = build_and_link(ctx, case, i)
-    if ld.timed_out or w.timed_out:
-        ctx.inconclusive("watchdog")
-        return
-    if not ld.ok:
-        ctx.inconclusive("reference linker rejected script")
-        return
-    try:
-        lp = placement(os.path.join(d, "l.out"))
-    except ElfError:
-        ctx.inconclusive("reference output unreadable")
-        return
-    all_descs = [(oi, dd) for oi, descs in enumerate(case["outs"]) for dd in descs]
-    for _, dd in all_descs:
+    case = build_case(r, ctx.quick)
+    for _, dd in [(oi, dd) for oi, descs in enumerate(case["outs"]) for dd in descs]:
         for p in dd["pats"]:
             ctx.note("patclass:" + pclass(p))
         if dd["keep"]:
             ctx.note("desc:KEEP")
         if dd["filepat"] != "*":
             ctx.note("desc:file-pattern")
-    seen = set()
-    if not w.ok:
-        # which description makes wild fail? test each pattern on its own against a section it
-        # should match (or any section).
-        eff = effect_of(w)
-        found = False
+    violated = False
+    for rnd in range(3):
+        d, ld, w = build_and_link(ctx, case, f"{i}-r{rnd}")
+        if ld.timed_out or w.timed_out:
+            ctx.inconclusive("watchdog")
+            return
+        if not ld.ok:
+            ctx.inconclusive("reference linker rejected script")
+            return
+        if w.ok:
+            break
+        # wild fails on a script GNU ld accepts: find the patterns that fail on their own, report
+        # them, and go on with the rest of the script.
+        violated = True
+        bad = set()
         n = 0
-        for oi, dd in all_descs:
-            for p in dd["pats"]:
-                cands = [s for s in case["secs"] if model_match(p, s["name"])] or case["secs"][:1]
-                n += 1
-                s = dict(cands[0], live=True)
-                if report(ctx, f"{i}", s, dict(dd, keep=False), p, f"{i}-f{n}", seen):
-                    found = True
-        if not found:
+        for descs in case["outs"]:
+            for dd in descs:
+                for p in dd["pats"]:
+                    n += 1
+                    if p not in bad and alone_effect(ctx, p, f"{i}-a{rnd}-{n}") is not None:
+                        bad.add(p)
+                        cands = [s for s in case["secs"] if model_match(p, s["name"])
+                                 and file_model(dd["filepat"], s["file"])]
+                        if not cands:
+                            cands = [dict(id=0, file=case["files"][0], name=".dataXYZ")]
+                        s = dict(cands[0], live=True)
+                        examine_cached(ctx, f"{i}", s, dict(dd, keep=False, filepat="*"), p, f"{i}-f{rnd}-{n}", "link-fails")
+        if not bad:
+            eff = effect_of(w)
             m = re.search(r"panicked at ([^:\n]+):", w.text())
-            sig = f"script-{eff}:unattributed" + (f"@{m.group(1)}" if m else "")
-            ctx.violation(sig, f"wild fails on a script GNU ld accepts and no single description reproduces it: "
-                          f"{w.errtext().strip()[:300]}", case=f"{i}", files={"case": d})
+            record(ctx, f"script-{eff}:unattributed" + (f"@{m.group(1)}" if m else ""),
+                   f"wild fails on a script GNU ld accepts and no single pattern reproduces it: "
+                   f"{w.errtext().strip()[:300]}", f"{i}", {"case": d}, None)
+            return
+        case = strip_patterns(case, bad)
+        ctx.note("residual-script-after-removing-failing-patterns")
+        if not case["outs"]:
+            return
+    else:
+        return
+    try:
+        lp = placement(os.path.join(d, "l.out"))
+    except ElfError:
+        ctx.inconclusive("reference output unreadable")
         return
     try:
         wp = placement(os.path.join(d, "w.out"))
     except ElfError as ex:
-        ctx.violation("output-unreadable", f"wild output cannot be parsed: {ex}", case=f"{i}", files={"case": d})
+        record(ctx, "output-unreadable", f"wild output cannot be parsed: {ex}", f"{i}", {"case": d}, None)
         return
     checked = 0
-    budget = 8
-    bad = False
+    budget = 6
     for s in case["secs"]:
         m = f"m_{s['id']}"
         l = lp.get(m)
@@ -559,12 +654,15 @@ def one_case(ctx, i, case=None):
         checked += 1
         if l == wv:
             continue
-        bad = True
+        violated = True
         if budget <= 0:
+            ctx.note("differences-beyond-per-case-budget")
             continue
         budget -= 1
-        # candidates: the description ld used (model agrees), and every description of the
-        # output section wild chose.
+        guess = ("out" if l.startswith(".out") else "orphan") + "->" + (
+            "absent" if wv is None else "out" if wv.startswith(".out") else "orphan")
+        # candidates: the description ld used (the model agrees with it), then every description
+        # of the output section wild chose.
         cands = []
         if mdesc is not None:
             cands.append((mdesc, mpat))
@@ -575,24 +673,34 @@ def one_case(ctx, i, case=None):
                         cands.append((dd, p))
         hit = False
         for k, (dd, p) in enumerate(cands):
-            if report(ctx, f"{i}", s, dd, p, f"{i}-s{s['id']}-{k}", seen):
+            if examine_cached(ctx, f"{i}", s, dd, p, f"{i}-s{s['id']}-{k}", guess):
                 hit = True
                 break
-        if not hit:
-            lc = pclass(mpat) if mpat else "orphan"
-            sig = f"rule-interaction:ld-rule={lc}:wild-placed-in-{'other-rule' if wv and wv.startswith('.out') else 'orphan' if wv else 'nothing'}"
-            if sig not in seen:
-                seen.add(sig)
-                ctx.violation(sig, f"section {s['name']!r} of {s['file']}: GNU ld -> {l}, wild -> {wv}; every single "
-                              f"description agrees in isolation", case=f"{i}", files={"case": d},
-                              info={"section": s["name"], "ld": l, "wild": wv})
-    if not bad:
-        classes = sorted({pclass(p) for _, dd in all_descs for p in dd["pats"]})
+        if hit:
+            continue
+        if not s["live"] and wv is None and mdesc is not None and not mdesc["keep"]:
+            kd, kp = model_keep_desc(case, s)
+            if kd is not None:
+                iso = isolate(ctx, s["name"], s["file"], kd["filepat"], kp, True, f"{i}-k{s['id']}",
+                              extra_first=dict(mdesc, pats=[mpat]))
+                if iso["ld"] == ".out0" and iso["wild"] is None:
+                    record(ctx, "keep-after-non-keep-description:discarded",
+                           f"unreferenced section {s['name']!r} matches `{desc_text(dict(mdesc, pats=[mpat]))}` first and "
+                           f"`{desc_text(dict(kd, pats=[kp]))}` later: GNU ld keeps it (any KEEP match protects the "
+                           f"section), wild discards it", f"{i}", {"iso": iso["dir"]},
+                           {"section": s["name"], "first": mpat, "keep": kp})
+                    continue
+        lc = pclass(mpat) if mpat else "orphan"
+        record(ctx, f"rule-interaction:ld-rule={lc}:{guess}",
+               f"section {s['name']!r} of {s['file']}: GNU ld -> {l}, wild -> {wv}; every single description agrees "
+               f"in isolation", f"{i}", {"case": d}, {"section": s["name"], "ld": l, "wild": wv})
+    ctx.note("markers-compared", checked)
+    if not violated:
+        classes = sorted({pclass(p) for descs in case["outs"] for dd in descs for p in dd["pats"]})
         ctx.held(fingerprint=script_text(case["outs"]) + "|" + ",".join(s["name"] for s in case["secs"]),
                  nontrivial=checked >= 3 and any(v.startswith(".out") for v in lp.values()),
                  sample={"script": script_text(case["outs"]), "sections_checked": checked,
                          "classes": classes} if i < 2 else None)
-    ctx.note("markers-compared", checked)
 
 
 PINNED = [
@@ -622,7 +730,7 @@ def pinned(ctx):
         if iso["ld"] != ".out0" or not model_match(pat, name):
             ctx.inconclusive("pinned: model and reference linker disagree")
             continue
-        if not report(ctx, f"pinned{n}", sec, desc, pat, f"p{n}", set()):
+        if not examine(ctx, f"pinned{n}", sec, desc, pat, f"p{n}"):
             ctx.held(fingerprint=f"pinned:{name}:{pat}:{keep}", nontrivial=True)
         ctx.note("patclass:" + pclass(pat))
 
